@@ -938,6 +938,24 @@ func (tr *Tr) assignTargets(fr *frame, c *Contract, env *specEnv) map[string]*as
 				t := get(k)
 				t.refs = append(t.refs, v.T)
 			}
+		case isGhostTarget(tr.G, a):
+			i := strings.Index(a, "(")
+			gm := tr.G.contracts.Ghosts[a[:i]]
+			s, err := parseSpec(a[i+1 : len(a)-1])
+			if err != nil {
+				vfail("assigns %s: %v", a, err)
+			}
+			v, err := env.evalVal(s)
+			if err != nil {
+				vfail("assigns %s: %v", a, err)
+			}
+			ref := v.T
+			if _, ok := v.Ty.Underlying().(*types.Slice); ok {
+				ref = app("s.arr", v.T)
+			}
+			key, _ := env.ghostKey(gm)
+			t := get(key)
+			t.refs = append(t.refs, ref)
 		case strings.HasPrefix(a, "released(") && strings.HasSuffix(a, ")"):
 			s, err := parseSpec(a[9 : len(a)-1])
 			if err != nil {
@@ -1041,6 +1059,14 @@ func (tr *Tr) assignTargets(fr *frame, c *Contract, env *specEnv) map[string]*as
 		}
 	}
 	return out
+}
+
+func isGhostTarget(g *Global, a string) bool {
+	i := strings.Index(a, "(")
+	if i <= 0 || !strings.HasSuffix(a, ")") {
+		return false
+	}
+	return g.contracts.Ghosts[a[:i]] != nil
 }
 
 func (tr *Tr) fieldKeyByName(env *specEnv, s string) (string, error) {
